@@ -10,6 +10,7 @@ from vf.checks import parserlevel as PL
 
 PROPERTY = "C02"
 LEVEL = "exploration"
+SHRINKABLE = True  # violating documents are minimised (ddmin) before the replay file is written
 BASELINE = "C02"
 REQUIRED_COUNTERS = ["parsed", "roundtrip_evaluated"]
 ASSUMPTIONS = ["documents that do not parse are C01's concern and are skipped (counted)", "frozen universes Z1..Z4"]
